@@ -76,6 +76,14 @@ def rule_physical_rows(ctx):
     ctx.res.minimum("O7.4", 1)
 
 
+def rule_blank_lines_are_rows(ctx):
+    """O7.5 (round 11, C12's table): the delimited reader hands on the row without items that stands for a blank line, so
+    row numbers - in errors, for the header and for the validation limit - are those of the data."""
+    from .c12 import rule_every_csv_row_is_passed_on
+
+    rule_every_csv_row_is_passed_on(ctx, "O7.5")
+
+
 from .common import rule_module_state  # noqa: E402
 
-RULES = [rule_window, rule_limit_bounds_every_rejection, rule_until, rule_physical_rows, rule_module_state]
+RULES = [rule_blank_lines_are_rows, rule_window, rule_limit_bounds_every_rejection, rule_until, rule_physical_rows, rule_module_state]
